@@ -141,9 +141,39 @@ struct PCfg {
     std::string name;
     int workers, tasks, queue_bound, submitters;
     bool reverse_get, destroy_early;
+    bool reuse_callable = false;     // every task is the SAME callable object (an lvalue std::function / functor with state), submitted repeatedly
 };
 
+// a callable whose move differs from its copy (it owns heap state): submitting it must not consume the caller's object
+struct StatefulTask {
+    std::vector<int> data;
+    std::atomic<int>* ran;
+    int operator()() const { ++*ran; int s = 0; for (int v : data) s += v; return s; }
+};
+
+void pool_reuse_body(const PCfg& c) {
+    std::atomic<int> ran_fn{0}, ran_st{0};
+    std::vector<std::future<int>> ffn, fst;
+    {
+        Pool pool{c.workers, static_cast<std::size_t>(c.queue_bound)};
+        std::function<int()> fn = [&ran_fn]() -> int { ++ran_fn; return 4711; };
+        StatefulTask st{{1, 2, 3, 4, 5, 6, 7, 8, 9, 10}, &ran_st};
+        for (int i = 0; i < c.tasks; ++i) { ffn.push_back(pool.submit(fn)); fst.push_back(pool.submit(st)); }
+        for (int i = 0; i < c.tasks; ++i) {
+            try { int v = ffn[static_cast<size_t>(i)].get(); if (v != 4711) vsched::fail("pool/wrong-result/reused-callable", "std::function submitted as an lvalue, submission " + std::to_string(i) + " -> " + std::to_string(v)); }
+            catch (const std::exception& e) { vsched::fail("pool/exception-instead-of-result/reused-callable", std::string("std::function submitted as an lvalue, submission ") + std::to_string(i) + ": " + e.what()); }
+            try { int v = fst[static_cast<size_t>(i)].get(); if (v != 55) vsched::fail("pool/wrong-result/reused-callable", "stateful functor submitted as an lvalue, submission " + std::to_string(i) + " -> " + std::to_string(v)); }
+            catch (const std::exception& e) { vsched::fail("pool/exception-instead-of-result/reused-callable", std::string("stateful functor, submission ") + std::to_string(i) + ": " + e.what()); }
+        }
+        if (!fn) vsched::fail("pool/submit-consumed-the-callers-callable", "the std::function passed as an lvalue is empty after submit()");
+        if (st.data.size() != 10) vsched::fail("pool/submit-consumed-the-callers-callable", "the functor passed as an lvalue lost its state after submit()");
+    }
+    if (ran_fn != c.tasks || ran_st != c.tasks) vsched::fail("pool/task-lost-or-ran-twice/reused-callable", "ran " + std::to_string(ran_fn.load()) + " and " + std::to_string(ran_st.load()) + " times, submitted " + std::to_string(c.tasks) + " times each");
+    vsched::observe("reuse ran=" + std::to_string(ran_fn.load()) + "," + std::to_string(ran_st.load()));
+}
+
 void pool_body(const PCfg& c) {
+    if (c.reuse_callable) { pool_reuse_body(c); return; }
     std::vector<std::unique_ptr<std::atomic<int>>> ran;
     for (int i = 0; i < c.tasks * c.submitters; ++i) ran.emplace_back(new std::atomic<int>{0});
     std::vector<std::future<int>> futs(c.tasks * c.submitters);
@@ -225,6 +255,7 @@ int main(int argc, char** argv) {
         {"P2:2 workers,3 tasks,bound 2,destroyed right after submit", 2, 3, 2, 1, false, true},
         {"P2:1 worker,3 tasks,bound 2,destroyed right after submit", 1, 3, 2, 1, false, true},
         {"P3:2 workers,2 submitters x2 tasks,bound 2", 2, 2, 2, 2, false, false},
+        {"P4:2 workers,the same std::function and functor objects submitted 2x each", 2, 2, 0, 1, false, false, true},
     };
     // Every (configuration, options) pair is registered first; bounds are then iterated smallest first
     // across all of them, so a deadline leaves complete lower bounds everywhere.
